@@ -1,6 +1,7 @@
 """C03 - Pauli operator arithmetic is faithful to matrix arithmetic. E2 (SymTrace)."""
 import itertools
 import json
+import os
 import random
 
 import numpy as np
@@ -200,7 +201,7 @@ def _w_arith(res, p):
         records.append((v1, m1, v2, m2))
         return R
 
-    ex = ST.Explorer(base=[], timeout_ms=8000, max_paths=600, logic="QF_NRA")
+    ex = ST.Explorer(base=[], timeout_ms=8000, max_paths=600, logic="auto")
     V.cons = []
     # constraints are created on first execution; run once to collect them
     ex.base = _LazyBase(V)
@@ -268,7 +269,7 @@ def _w_eq(res, p):
         records.append((bool(r), v, m))
         return r
 
-    ex = ST.Explorer(base=_LazyBase(V), timeout_ms=8000, max_paths=600, logic="QF_NRA")
+    ex = ST.Explorer(base=_LazyBase(V), timeout_ms=8000, max_paths=600, logic="auto")
     outs = ex.run(fn)
     res.d["paths"] += ex.npaths
     res.d["solver_queries"] += ex.queries
